@@ -37,7 +37,10 @@ def _run_local(prop, tier, seed, shard, nshards, only=None):
         n = int(max(1, n * scale)) if n > 0 else 0
         if shard is not None and shard > 0 and getattr(sub, "shard0_only", False):
             continue
+        t_sub = time.time()
         H.run_sub(rec, sub, n, sub_seed * 31 + i, known, shrink_s, deadline)
+        if sub.name in rec.sub:
+            rec.sub[sub.name]["wall_s"] = round(rec.sub[sub.name].get("wall_s", 0) + time.time() - t_sub, 1)
     return rec
 
 
